@@ -45,8 +45,26 @@ def run(prog: Program, res: Result, tier: str) -> None:
     exp = exporter_model(prog)
     efi = exp["_fi"]
     # ---------------------------------------------------------------- SP, TB
-    for cls, k, parities in (("SquarePlanar", 4, (0,)),
-                             ("TrigonalBipyramidal", 5, (1, -1))):
+    # bond rewriting inside the export invalidates the neighbour order that
+    # tags of OTHER atoms were (or will be) computed against
+    res.rule("R-EXPORT-ORDER", "the stereo export never removes / re-adds "
+             "bonds of the RDKit molecule: that moves the bond to the end of "
+             "the partner atom's bond list and silently changes the neighbour "
+             "order its own chiral tag / permutation label refers to")
+    if exp["bond_rewrites"]:
+        n0 = exp["bond_rewrites"][0]
+        res.bad("R-EXPORT-ORDER", f"stereo_mol_graph_to_rdmol: {norm(n0, 60)}",
+                efi.loc(n0), f"stereo_mol_graph_to_rdmol calls "
+                f"`{norm(n0, 60)}` while tags are being assigned: a "
+                "stereocentre bonded to the rewritten centre comes back "
+                "inverted in a fraction of the cases")
+    else:
+        res.ok("R-EXPORT-ORDER", "stereo export leaves the bond lists alone",
+               efi.loc())
+    classes = [("SquarePlanar", 4, (0,)), ("TrigonalBipyramidal", 5, (1, -1))]
+    if isinstance(exp.get("Octahedral"), dict) and "loop" in exp["Octahedral"]:
+        classes.append(("Octahedral", 6, (1, -1)))
+    for cls, k, parities in classes:
         model = exp.get(cls)
         if model is None:
             res.error(f"T-ROUNDTRIP {cls}: export label search not "
@@ -126,7 +144,12 @@ def run(prog: Program, res: Result, tier: str) -> None:
     # ------------------------------------------------------------ octahedral
     om = exp["Octahedral"]
     inst = "Octahedral: export re-inserts the bonds in a fixed order"
-    if om["order"] and om["removes"] and sorted(om["order"]) == [1, 2, 3, 4, 5, 6]:
+    if om is None:
+        res.unrecognised("T-ROUNDTRIP", "Octahedral export", efi.loc(),
+                         "neither a label search nor a canonical bond order")
+    elif "loop" in om:
+        pass        # handled by the label-search model above
+    elif om["order"] and om["removes"] and sorted(om["order"]) == [1, 2, 3, 4, 5, 6]:
         res.ok("T-ROUNDTRIP", inst, efi.loc(om["branch"]))
         d = ("c", "a1", "a2", "a3", "a4", "a5", "a6")
         nbrs = tuple(d[i] for i in om["order"])
@@ -250,6 +273,43 @@ def run(prog: Program, res: Result, tier: str) -> None:
                     f"`{ev.stmt}`", instance=inst)
         else:
             res.ok("R-EXPORT-PURE", inst, "")
+    # memoisation keyed by graphs: graph __eq__ / __hash__ are isomorphism
+    res.rule("R-NO-GRAPH-CACHE", "no function that takes a graph is memoised "
+             "(functools.lru_cache / cache): graphs compare and hash by "
+             "isomorphism, while bond-order matrices, index maps and RDKit "
+             "molecules are indexed by position / identifier; an equal graph "
+             "with another atom order would receive the cached data of the "
+             "first")
+    n_fn = 0
+    for mod in prog.modules.values():
+        for fn in ast.walk(mod.tree):
+            if not isinstance(fn, ast.FunctionDef):
+                continue
+            n_fn += 1
+            decos = [norm(d) for d in fn.decorator_list]
+            cached = [d for d in decos if d.split("(")[0].split(".")[-1] in (
+                "lru_cache", "cache", "cached_property", "memoize")]
+            if not cached:
+                continue
+            params = [a for a in fn.args.posonlyargs + fn.args.args
+                      + fn.args.kwonlyargs]
+            graphy = [a.arg for a in params if a.arg in (
+                "graph", "g", "g1", "g2", "mg", "smg", "mol_graph", "self")
+                      or (a.annotation is not None
+                          and "Graph" in norm(a.annotation))]
+            inst = f"{mod.name}:{fn.name} decorated with {cached}"
+            if graphy:
+                res.bad("R-NO-GRAPH-CACHE", inst, mod.loc(fn),
+                        f"{inst} and takes the graph parameter(s) {graphy}: "
+                        "the cache is keyed by graph isomorphism; exporting "
+                        "an equal graph whose atoms were inserted in another "
+                        "order reuses position-indexed data of the first "
+                        "(double bonds land on the wrong atoms)")
+            else:
+                res.ok("R-NO-GRAPH-CACHE", inst, mod.loc(fn))
+    res.ok("R-NO-GRAPH-CACHE", f"{n_fn} functions scanned, none memoised "
+           "on a graph", "") if not any(
+        f.rule == "R-NO-GRAPH-CACHE" for f in res.findings) else None
     # dictionary directions (shared with C18)
     from .C18 import check_dict_dir
     res.rule("R-DICT-DIR", "set_bond_orders indexes each dictionary with "
